@@ -133,6 +133,26 @@ Example C05_nonvacuous :
     [IEv (EWait (GWait, 0) 2 WSkipped); IEv (EPrune (GPrune, 0) 1 ASkip); IEv (EWait (GWait, 1) 1 WSkipped)].
 Proof. vm_compute. repeat split; reflexivity. Qed.
 
+(* a dependent held by a finalizer: object 2 lives in namespace 0 and carries a finalizer.  The destroyer
+   deletes 2 first; the request is accepted but the object lingers, its wait times out; the namespace 0
+   (its dependency) is then NOT deleted (dependency filter: the dependent is not reconciled), both stay
+   tracked and the inventory object is not deleted *)
+Example C05_nonvacuous_finalizer :
+  let univ := [mkU KNs None None; mkU KPlain None None; mkUF KPlain (Some 0) None true] in
+  let od := mkO true true PAdoptAll DNone VSkipInvalid false true true false PropBackground false in
+  let waits := [mkW [mkS 2 STerminating true 6%N 2%Z] WTimeout; mkW [mkS 0 SNotFound false 0%N 0%Z] WTimeout] in
+  let sc := mkSc univ None [] od (mkE [] waits CNever None) in
+  let c0 := mkCl [mkC 0 5%N OOurs false [] false 1 None; mkC 2 6%N OOurs false [] false 1 None] (Some [0; 2]) 8%N in
+  option_map (fun p => g_dependents (pl_graph (fst p)) 0) (run_plan sc c0) = Some [2] /\
+  C05_items (out_trace (run sc c0)) =
+    [IReq (RDelete 2 6%N PropBackground) true [0; 2] (Some [0; 2]); IEv (EPrune (GPrune, 0) 2 AOk);
+     IEv (EWait (GWait, 0) 2 WPending); IEv (EWait (GWait, 0) 2 WTimedOut);
+     IEv (EPrune (GPrune, 1) 0 ASkip); IEv (EWait (GWait, 1) 0 WSkipped)] /\
+  reqs_of (out_trace (run sc c0)) = [RDelete 2 6%N PropBackground] /\
+  out_final (run sc c0) = c0 /\
+  mon_C05 sc c0 (run sc c0) = true.
+Proof. vm_compute. repeat split; reflexivity. Qed.
+
 Print Assumptions C05_order.
 Print Assumptions C05_blocked_partial.
 Print Assumptions C05_blocked_at_request_partial.
